@@ -21,7 +21,8 @@
      flags    global flag set
      treat, errdev   level registry tables that matter for gating and routing
      regd     custom level values registered so far (RegisterLevel refuses a second registration)
-     vrb      the process-wide verbose switch of hedzr/is (set from outside the library)    *)
+     vrb      the process-wide verbose switch of hedzr/is (set from outside the library)
+     hnd      log/slog handlers made so far: hnd[k] is the logger handler k sits on         *)
 EXTENDS Levels, TLC, SequencesExt, FiniteSetsExt
 
 CONSTANTS
@@ -35,6 +36,7 @@ CONSTANTS
     InitTreat,       \* treated-as table at start (factory table plus levels registered by the driver)
     InitErrDev,      \* error-device set at start
     InitRegd,        \* custom level values registered by the driver before the behaviour starts
+    HandlerOpts,     \* sequence of log/slog handler options [nocolor, nosource, json, level (0: none)]
     RegCalls,        \* sequence of RegisterLevel calls [v, t (treated-as, -1: none), e (error device), clash (title of a built-in level)]
     WLevels,         \* severities for which per-level writers are explored
     WantsLevel,      \* writers that ask to be told the severity before each Write (LevelSettable)
@@ -48,6 +50,7 @@ CONSTANTS
     CtxVals,         \* context contents explored by LogM: each a sequence of <<context key, value>> (value 0 = absent)
     CallArgs,        \* call-site attribute lists explored by LogM
     FlagSets,        \* sequence of flag sets used as arguments of the flag calls (sets of flag names)
+    MaxHandlers,     \* bound on log/slog handlers in the exhaustive model
     MaxSaved,        \* bound on outstanding SaveFlagsAndMod / SaveLevelAndSet scopes in the exhaustive model
     MaxList,         \* bound on the length of attribute / writer / context-key lists in the exhaustive model
     Acts             \* enabled action families (subset of AllActs)
@@ -79,7 +82,7 @@ InitState ==
      cfg |-> <<DefaultCfg(FALSE, TRUE, InitLevel)>>,
      dbg |-> FALSE, deflvl |-> InitLevel, deflog |-> 1, attrsR |-> FALSE,
      flags |-> InitFlags, savedf |-> <<>>, savedl |-> <<>>,
-     treat |-> InitTreat, errdev |-> InitErrDev, regd |-> InitRegd, vrb |-> FALSE]
+     treat |-> InitTreat, errdev |-> InitErrDev, regd |-> InitRegd, vrb |-> FALSE, hnd |-> <<>>]
 
 Live(s) == 1..s.n
 
@@ -187,6 +190,9 @@ Guard(s, e) ==
       [] e.op = "LogM" -> e.l \in Live(s)          \* a record with context CtxVals[e.a] and call attributes CallArgs[e.b]
       [] e.op = "PkgSkip" -> e.k \in {"SetSkip", "WithSkip"}   \* slog.SetSkip(a) / slog.WithSkip(a): the default logger's twins
       [] e.op = "DbgMode" -> TRUE                  \* the process-wide debug mode set from outside the library (hedzr/is)
+      \* NewSlogHandler(l, HandlerOpts[e.a]) / a record of standard level e.a through handler e.l
+      [] e.op = "MkHandler" -> e.l \in Live(s) /\ e.a \in DOMAIN HandlerOpts
+      [] e.op = "HEmit" -> e.l \in DOMAIN s.hnd
       [] e.op = "VrbMode" -> TRUE                  \* the process-wide verbose switch set from outside the library (hedzr/is)
       \* slog.RegisterLevel(v, title, options): RegCalls[e.a]
       [] e.op = "Register" -> e.a \in DOMAIN RegCalls
@@ -242,6 +248,17 @@ Step(s, e) ==
            ELSE Step(s, [op |-> "With", l |-> s.deflog, k |-> "Skip", a |-> e.a, b |-> 0])
       [] e.op = "DbgMode" -> {[s EXCEPT !.dbg = (e.a = 1)]}
       [] e.op = "VrbMode" -> {[s EXCEPT !.vrb = (e.a = 1)]}
+      \* making a handler configures the logger it sits on (level if given, then colour, then JSON) and
+      \* the caller flag; using the handler never configures anything
+      [] e.op = "MkHandler" ->
+           LET o == HandlerOpts[e.a]
+               c == s.cfg[e.l]
+               c1 == IF o.level # 0 THEN [c EXCEPT !.level = o.level] ELSE c
+               c2 == [c1 EXCEPT !.json = FALSE, !.color = ~o.nocolor]
+               c3 == IF o.json THEN [c2 EXCEPT !.json = TRUE, !.color = FALSE] ELSE c2
+               nf == IF o.nosource THEN s.flags \ {"caller"} ELSE s.flags \cup {"caller"}
+           IN {[s EXCEPT !.cfg[e.l] = c3, !.flags = nf, !.dbg = s.dbg \/ o.level = Debug, !.hnd = Append(s.hnd, e.l)]}
+      [] e.op = "HEmit" -> {s}
       \* a refused registration (value in use, or title in use) changes nothing at all; an accepted
       \* one changes the entries of its own value only
       [] e.op = "Register" ->
@@ -438,6 +455,8 @@ LogF(l, r, fi) == "LogF" \in Acts /\ Do("LogF", l, "", r, fi)
 LogM(l, ci, ai) == "LogM" \in Acts /\ Do("LogM", l, "", ci, ai)
 SetAttrsR(b) == "SetAttrsR" \in Acts /\ b \in {0, 1} /\ Do("SetAttrsR", 0, "", b, 0)
 DbgMode(b) == "DbgMode" \in Acts /\ b \in {0, 1} /\ Do("DbgMode", 0, "", b, 0)
+MkHandler(l, a) == "MkHandler" \in Acts /\ Len(st.hnd) < MaxHandlers /\ Do("MkHandler", l, "", a, 0)
+HEmit(h, r) == "HEmit" \in Acts /\ r \in {Debug, Info, Warn, Error} /\ Do("HEmit", h, "", r, 0)
 VrbMode(b) == "VrbMode" \in Acts /\ b \in {0, 1} /\ Do("VrbMode", 0, "", b, 0)
 Register(a) == "Register" \in Acts /\ a \in DOMAIN RegCalls /\ Do("Register", 0, "", a, 0)
 PkgSkip(k, a) ==
@@ -478,6 +497,8 @@ Next ==
     \/ \E b \in {0, 1} : SetAttrsR(b)
     \/ \E b \in {0, 1} : DbgMode(b)
     \/ \E b \in {0, 1} : VrbMode(b)
+    \/ \E l \in 1..MaxLoggers, a \in DOMAIN HandlerOpts : MkHandler(l, a)
+    \/ \E h \in 1..MaxHandlers, r \in {Debug, Info, Warn, Error} : HEmit(h, r)
     \/ \E a \in DOMAIN RegCalls : Register(a)
     \/ \E k \in {"SetSkip", "WithSkip"}, a \in ArgA : PkgSkip(k, a)
     \/ \E k \in FlagKinds, a \in 0..Len(FlagSets), b \in 0..Len(FlagSets) : Flags(k, a, b)
